@@ -113,7 +113,14 @@ def matrix(repo, names, props, tier="quick"):
 
 if __name__ == "__main__" and sys.argv[1] == "matrix":
     repo = sys.argv[2]
-    names = sys.argv[3].split(",") if sys.argv[3] != "all" else sorted(os.listdir(SEEDED))
+    import re as _re
+    allnames = sorted(n for n in os.listdir(SEEDED) if os.path.isdir(os.path.join(SEEDED, n)))
+    if sys.argv[3] == "all":
+        names = allnames
+    elif sys.argv[3].startswith("re:"):      # e.g. re:r4  /  re:^(?!.*r4)
+        names = [n for n in allnames if _re.search(sys.argv[3][3:], n)]
+    else:
+        names = sys.argv[3].split(",")
     props = sys.argv[4].split(",") if len(sys.argv) > 4 and sys.argv[4] != "all" else [f"C{i:02d}" for i in range(1, 21)]
     if len(sys.argv) > 4 and sys.argv[4] == "own":
         props = ["own"]
